@@ -3,6 +3,8 @@
 expect exit 1 (VIOLATION), revert.  Usage: tools/mutants.py [PROP ...] [--name substr] [--tests]
 Mutants live in tools/mutants/<PROP>.py as a list MUTANTS = [(name, file, old, new[, count]), ...]."""
 import subprocess, sys, os, importlib.util, json, time
+REPO = os.environ.get('MUT_REPO', '/repo')
+HARNESS = os.environ.get('MUT_HARNESS')  # a copy of /verif/harness whose cgmath path points at MUT_REPO
 
 def load(prop):
     path = f'/verif/tools/mutants/{prop}.py'
@@ -11,7 +13,7 @@ def load(prop):
     return m.MUTANTS
 
 def revert():
-    subprocess.run(['git','-C','/repo','checkout','--','.'],check=True)
+    subprocess.run(['git','-C',REPO,'checkout','--','.'],check=True)
 
 def main():
     args = sys.argv[1:]
@@ -27,7 +29,7 @@ def main():
             name, file, old, new = mut[:4]
             if name_filter and name_filter not in name: continue
             count = mut[4] if len(mut) > 4 else 1
-            path = '/repo/' + file
+            path = REPO + '/' + file
             src = open(path).read()
             if src.count(old) < 1:
                 print(f'{prop} {name}: PATTERN NOT FOUND'); results.append((prop,name,'nopattern')); continue
@@ -38,10 +40,14 @@ def main():
                 t=time.time()
                 status = ''
                 if run_tests:
-                    r = subprocess.run('cd /repo && cargo test --workspace --no-fail-fast --offline 2>&1 | grep -E "^test result|FAILED|error(\\[|:)" | head -20', shell=True, capture_output=True, text=True)
+                    r = subprocess.run('cd ' + REPO + ' && cargo test --workspace --no-fail-fast --offline 2>&1 | grep -E "^test result|FAILED|error(\\[|:)" | head -20', shell=True, capture_output=True, text=True)
                     bad = ('FAILED' in r.stdout) or ('error' in r.stdout)
                     status = ' tests=' + ('FAIL' if bad else 'pass')
-                r = subprocess.run(['/verif/check', prop, 'quick'], capture_output=True, text=True)
+                if HARNESS:
+                    cmd = f'cd {HARNESS} && (cargo build --release --offline >/dev/null 2>&1 || exit 2) && target/release/vcheck --prop {prop} --tier quick --no-evidence'
+                    r = subprocess.run(cmd, shell=True, capture_output=True, text=True)
+                else:
+                    r = subprocess.run(['/verif/check', prop, 'quick'], capture_output=True, text=True)
                 first = next((l for l in r.stdout.splitlines() if l.startswith('VIOLATION') or l.startswith('INCONCLUSIVE')), r.stdout.strip().splitlines()[-1] if r.stdout.strip() else '')
                 sub = next((l.strip() for l in r.stdout.splitlines() if l.strip().startswith('subcheck=')), '')
                 verdict = {1:'CAUGHT',0:'MISSED',2:'INCONCLUSIVE'}.get(r.returncode, f'rc{r.returncode}')
